@@ -239,16 +239,15 @@ def h_init(reach0: bool, reach1: bool, reach2: bool, a0: bool, a1: bool, a2: boo
     return set(sb["queue"]) == set(bbs) and all(sb["vals_before"][b] == {} for b in bbs)
 
 
-def h_lattice(p0: bool, p1: bool, q0: bool, q1: bool, r0: bool, r1: bool, a0: bool, a1: bool, u0: bool, u1: bool,
-              pm0: bool, pm1: bool, qm0: bool, qm1: bool, e0: bool) -> bool:
+def _S(b):
+    return {v for v, k in zip(["x", "y"], b) if k}
+
+
+def h_lattice_live(p0: bool, p1: bool, q0: bool, q1: bool, r0: bool, r1: bool, a0: bool, a1: bool, u0: bool, u1: bool) -> bool:
     """
     post: _
     """
-    V = ["x", "y"]
-
-    def S(b):
-        return {v for v, k in zip(V, b) if k}
-
+    S = _S
     b0 = BB(0, None)
     stats = {b0: VariableStats(assigned={v: None for v in S([a0, a1])}, used={v: None for v in S([u0, u1])})}
     la = A.LivenessAnalysis(stats, initial={}, include_unreachable=True)
@@ -263,8 +262,17 @@ def h_lattice(p0: bool, p1: bool, q0: bool, q1: bool, r0: bool, r1: bool, a0: bo
     # transfer function: distributes over join (hence monotone)
     if k(la.apply_bb(la.join(P, Q), b0)) != k(la.join(la.apply_bb(P, b0), la.apply_bb(Q, b0))):
         return False
-    if k(la.apply_bb(P, b0)) != S([u0, u1]) | (k(P) - S([a0, a1])):
-        return False
+    return k(la.apply_bb(P, b0)) == S([u0, u1]) | (k(P) - S([a0, a1]))
+
+
+def h_lattice_assign(p0: bool, p1: bool, q0: bool, q1: bool, a0: bool, a1: bool,
+                     pm0: bool, pm1: bool, qm0: bool, qm1: bool, e0: bool) -> bool:
+    """
+    post: _
+    """
+    S = _S
+    b0 = BB(0, None)
+    stats = {b0: VariableStats(assigned={v: None for v in S([a0, a1])})}
     entry = S([e0, False])
     fa = _assignment_analysis(stats, entry, True)
     X, Y = (S([p0, p1]), S([pm0, pm1])), (S([q0, q1]), S([qm0, qm1]))
